@@ -59,6 +59,8 @@ def build(case, a_delta):
 
     if mode == "tb":
         comp.add("X-MOZ-GENERATION", "1")
+        # decoy: a Thunderbird component is acknowledged by X-MOZ-LASTACK only, never by its DTSTAMP
+        put(comp, "DTSTAMP", "DTSTAMP", T_INSTANT[kind] + timedelta(hours=3))
         put(comp, "X_MOZ_LASTACK", "X-MOZ-LASTACK", cval)
         put(comp, "X_MOZ_SNOOZE_TIME", "X-MOZ-SNOOZE-TIME", sval)
     else:
